@@ -352,6 +352,16 @@ func runC01(c *Ctx) {
 			p := genPacket(r, big)
 			fz := freeze(p)
 			ps = append(ps, fz)
+			if len(fz.pay) > 0 && r.Chance(25) {
+				// a packet that was (partly or wholly) read before it is sent on - a relay looked at it, or it
+				// is marshalled a second time: Marshal rewinds and writes the whole payload
+				n := 1 + r.Intn(len(fz.pay))
+				if r.Bool() {
+					n = len(fz.pay)
+				}
+				p.Read(make([]byte, n))
+				c.Count("wire:read-before-marshal")
+			}
 			var mw multiWrites
 			if err := p.Marshal(&mw); err != nil {
 				c.Fail("marshal", "marshal-error", "Marshal failed: "+err.Error(), fz.tok)
@@ -439,13 +449,30 @@ func runC01(c *Ctx) {
 		k := 1 + r.Intn(3)
 		var ps []frozen
 		var ch data.Chunk
+		switch r.Intn(5) { // the container's storage was used before (a batch packet is built in a reused buffer)
+		case 0:
+			ch.Write(bytes.Repeat([]byte{0xFF}, 64+r.Intn(3000)))
+			ch.Reset()
+			c.Count("stream:container-reused")
+		case 1:
+			g := bytes.Repeat([]byte{0xA5}, 64+r.Intn(3000))
+			ch.Write(g)
+			for len(g) > 0 {
+				n, _ := ch.Read(make([]byte, 1+r.Intn(len(g))))
+				if n == 0 {
+					break
+				}
+				g = g[n:]
+			}
+			c.Count("stream:container-drained")
+		}
 		var mw multiWrites
 		sw := data.NewWriter(&mw)
 		for j := 0; j < k; j++ {
 			p := genPacket(r, big)
 			fz := freeze(p)
 			ps = append(ps, fz)
-			before := ch.Size()
+			before := len(ch.Payload())
 			if err := p.MarshalStream(&ch); err != nil {
 				c.Fail("marshal", "marshalstream-error", "MarshalStream failed: "+err.Error(), fz.tok)
 				return
@@ -454,7 +481,7 @@ func runC01(c *Ctx) {
 				c.Fail("marshal", "marshalstream-error", "MarshalStream (stream writer) failed: "+err.Error(), fz.tok)
 				return
 			}
-			if ch.Size()-before <= 600 {
+			if len(ch.Payload())-before <= 600 {
 				c.Op("marshalstream "+fz.tok, "ok "+hx(ch.Payload()[before:]))
 			}
 			if d := eqFrozen(fz, p); d != "" {
